@@ -1,6 +1,7 @@
 From Coq Require Extraction.
 From Coq Require Import ExtrOcamlBasic.
-From NV Require Import Base.Witness CramRec.Features CramRec.Container CramRec.Mates.
+From NV Require Import Base.Witness CramRec.Features CramRec.Container CramRec.Mates CramRec.MatesBytes CramRec.SliceHeader.
 Extraction "model.ml" nv_types_witness roundtrip default_sm
   build_container mk_desc_block mkslice
-  mates_roundtrip samrec_of mate_view.
+  mates_roundtrip samrec_of mate_view mates_rt mates_links mates_bytes
+  shdr_rows srec_of.
